@@ -8,7 +8,8 @@ from pyvc.verify import verify_contract  # noqa: E402
 
 
 def run_entry(args: tuple) -> tuple:
-    index, entry, scratch = args
+    index, entry, scratch = args[:3]
+    timeout_ms = args[3] if len(args) > 3 else 10000
     contracts = load_contracts()
     by_target = {c.target: c for c in contracts.values() if not c.__dict__.get("variant", False)}
     tree = os.path.join(scratch, f"tree{index}")
@@ -19,11 +20,11 @@ def run_entry(args: tuple) -> tuple:
         if entry["old"] not in text:
             return index, "skip", f"SKIP (source changed, pattern not found): {entry['contract']} {entry['old'][:50]!r}"
         open(path, "w", encoding="utf-8").write(text.replace(entry["old"], entry["new"], 1))
-        res = verify_contract(tree, contracts[entry["contract"]], by_target, MODELS, 10000, open_findings=[])
+        res = verify_contract(tree, contracts[entry["contract"]], by_target, MODELS, timeout_ms, open_findings=[])
         failed = [o for o in res["obligations"] if o["status"] == "failed"]
         if not failed and any(o["status"] == "undecided" for o in res["obligations"]):
             # as the driver does: obligations left open by the solvers are followed by the counterexample search
-            small = verify_contract(tree, contracts[entry["contract"]], by_target, MODELS, 10000, mode="small", open_findings=[])
+            small = verify_contract(tree, contracts[entry["contract"]], by_target, MODELS, timeout_ms, mode="small", open_findings=[])
             failed = [o for o in small["obligations"] if o["status"] == "failed" and o["kind"] != "unwind"]
         if res["out_of_subset"] or res.get("engine_error"):
             verdict = "unsupported"
@@ -48,7 +49,11 @@ def main() -> int:
         ctx = multiprocessing.get_context("fork")
         with ctx.Pool(8) as pool:
             results = pool.map(run_entry, [(i, entry, scratch) for i, entry in enumerate(corpus[:limit])])
-        for _, status, line in sorted(results):
+        for index, status, line in sorted(results):
+            if status == "bad":
+                # a busy machine can starve the solver: one more try, alone and with six times the solver time
+                index, status, line = run_entry((index, corpus[index], scratch, 60000))
+                line += "  (second attempt)"
             print(line)
             bad += status == "bad"
     finally:
